@@ -704,7 +704,7 @@ fn play_pump(client: TcpStream, target: TcpStream, script: &[Value]) -> Vec<Valu
             }
             "tgot" => {
                 let got = match target.as_mut() {
-                    Some(t) => read_n(t, pend_t, Duration::from_secs(3)),
+                    Some(t) => read_n(t, pend_t, Duration::from_secs(8)),
                     None => vec![],
                 };
                 pend_t = 0;
@@ -712,7 +712,7 @@ fn play_pump(client: TcpStream, target: TcpStream, script: &[Value]) -> Vec<Valu
             }
             "cgot" => {
                 let got = match client.as_mut() {
-                    Some(c) => read_n(c, pend_c, Duration::from_secs(3)),
+                    Some(c) => read_n(c, pend_c, Duration::from_secs(8)),
                     None => vec![],
                 };
                 pend_c = 0;
@@ -720,14 +720,14 @@ fn play_pump(client: TcpStream, target: TcpStream, script: &[Value]) -> Vec<Valu
             }
             "teof" => {
                 let seen = match target.as_mut() {
-                    Some(t) => sees_close(t, Duration::from_millis(1500)),
+                    Some(t) => sees_close(t, Duration::from_millis(4000)),
                     None => false,
                 };
                 out.push(json!({"ev": ev, "data": [], "seen": seen}));
             }
             _ => {
                 let seen = match client.as_mut() {
-                    Some(c) => sees_close(c, Duration::from_millis(1500)),
+                    Some(c) => sees_close(c, Duration::from_millis(4000)),
                     None => false,
                 };
                 out.push(json!({"ev": "ceof", "data": [], "seen": seen}));
@@ -1013,7 +1013,7 @@ fn run_record(bin: &str, base: &Path, name: &str, rec: &Value, rng: &mut Rng, st
                 steps_out.push(json!({"op": step["op"], "rq": step["rq"], "ka": step["ka"], "obs": {"cls": "skipped", "tgt": 0}, "pump": []}));
                 continue;
             }
-            let script: Vec<Value> = if random_pump {
+            let script: Vec<Value> = if random_pump || step.get("pump").is_none() {
                 random_script(rng)
             } else {
                 // the vector carries the script with the expected observations; only the actions are used here
@@ -1283,10 +1283,11 @@ fn plain_frame(rng: &mut Rng, opcode: u8, len: usize) -> Vec<u8> {
 }
 
 fn frame_len(rng: &mut Rng) -> usize {
-    match rng.below(10) {
-        0 => 0,
-        1 => rng.range(1000, 1100), // around the pump's 1024-byte buffer
-        2 => rng.range(2000, 5000), // several reads per frame
+    match rng.below(24) {
+        0 | 1 => 0,
+        2 | 3 => rng.range(1000, 1100), // around the pump's 1024-byte buffer
+        4 | 5 => rng.range(2000, 5000), // several reads per frame
+        6 => rng.range(20000, 40000),   // dozens of loop iterations, data in both kernel buffers meanwhile
         _ => rng.range(1, 120),
     }
 }
@@ -1300,7 +1301,21 @@ fn act(ev: &str, data: &[u8]) -> Value {
 fn random_script(rng: &mut Rng) -> Vec<Value> {
     let mut s = vec![act("tsend", b"HTTP/1.1 101 Switching Protocols\r\nUpgrade: websocket\r\nConnection: Upgrade\r\nSec-WebSocket-Accept: s3pPLMBiTxaQ9kYGzzhZRbK+xOo=\r\n\r\n"), act("cgot", &[])];
     for _ in 0..rng.range(1, 5) {
-        if rng.chance(1, 2) {
+        if rng.chance(1, 5) {
+            // both directions at once: neither side looks before both have written
+            let (n1, n2) = (frame_len(rng), frame_len(rng));
+            let f1 = masked_frame(rng, 2, n1);
+            let f2 = plain_frame(rng, 2, n2);
+            if rng.chance(1, 2) {
+                s.push(act("csend", &f1));
+                s.push(act("tsend", &f2));
+            } else {
+                s.push(act("tsend", &f2));
+                s.push(act("csend", &f1));
+            }
+            s.push(act("tgot", &[]));
+            s.push(act("cgot", &[]));
+        } else if rng.chance(1, 2) {
             let n = frame_len(rng);
             let op = if rng.chance(1, 2) { 1 } else { 2 };
             let f = masked_frame(rng, op, n);
@@ -1377,7 +1392,8 @@ fn random_session(rng: &mut Rng, cfg: &Cfg) -> Vec<Value> {
     if cfg.timeout > 0 {
         conns.push(json!([{"op": "idle", "rq": null_rq(), "ka": false}]));
     }
-    if rng.chance(1, 4) {
+    // (not with a timeout: the silent connections that hold the workers must stay silent without being answered 408)
+    if cfg.timeout == 0 && rng.chance(1, 3) {
         conns.push(json!([{"op": "sat", "rq": random_rq(rng, "http"), "ka": false}]));
     }
     conns
